@@ -248,3 +248,47 @@ Example C11_tr_nonvacuous :
 Proof.
   split; [reflexivity|]. split; [repeat constructor|]. repeat split; vm_compute; reflexivity.
 Qed.
+
+(* ---- ratom_match of regex.c (translated: GenCFuncs.F_ratom_match) is the model's atom matcher, coq/TrRegexAtom.v --------
+   struct ratom = a block of two cells (ra, s), struct rstate = a block of 133 cells (s, o, mark[128], pc, flg, dep), the
+   literal of an RA_CHR atom and the line are C strings in blocks of their own.  For EVERY atom other than a bracket
+   expression (literal with and without REG_ICASE, '.', ^, $, \<, \>), every line, position p <= |line| and flag word: the C
+   text returns 1 and leaves the memory alone exactly when the model answers "no match", and returns 0 with rs->s = line + p'
+   stored into cell 0 of the state exactly when the model answers Some p' (ratom_result); it never reads outside the two
+   strings and the two structs (EOob), never overflows an int, never runs out of fuel.  The model never answers OOB / NoFuel
+   here (C11_atom_in_bounds), so the third case of ratom_result does not occur. *)
+From NV Require TrRegexAtom.
+Theorem C11_tr_ratom_match : forall m ba bs br bl rs (line : bytes) (a : atom) p flg d fuel,
+  TrRegexAtom.ratom_at m ba bs a -> TrRegexAtom.rstate_at m br bl rs p flg ->
+  CLiteProps.str_at m bl line -> CLiteProps.bytes_lt256 line -> p <= length line ->
+  (-2147483648 <= flg <= 2147483647)%Z -> length line < fuel -> 4 <= fuel ->
+  match TrRegexAtom.ra_str a with Some s => length s < fuel /\ (Z.of_nat (length s) <= 2147483647)%Z | None => True end ->
+  (forall s, a <> ABrk s) ->
+  CLite.callf GenCFuncs.cprog fuel (S (S (S d))) GenCFuncs.F_ratom_match [CLite.VPtr ba 0; CLite.VPtr br 0] m
+  = TrRegexAtom.ratom_result m br bl rs (ReVM.ratom_match flg line a p).
+Proof. exact TrRegexAtom.tr_ratom_match. Qed.
+Print Assumptions C11_tr_ratom_match.
+
+(* non-vacuity, RUN on a concrete memory: line  x c3 84 b e2  (the last byte is a truncated lead byte), literal c3 84;
+   REG_ICASE literal at 1 -> 0 and rs->s = line + 3;  '.' at 4 (the truncated sequence) -> 0 and rs->s = line + 5 *)
+Definition C11_tr_line : bytes := [120; 195; 132; 98; 226]%N.
+Definition C11_tr_lit : bytes := [195; 132]%N.
+Definition C11_tr_amem (ra p flg : Z) : CLite.mem :=
+  [CLite.cstr_block (CLiteProps.zb C11_tr_line); CLite.cstr_block (CLiteProps.zb C11_tr_lit); [CLite.VInt ra; CLite.VPtr 1 0];
+   [CLite.VPtr 0 p; CLite.VPtr 0 0] ++ repeat (CLite.VInt (-1)) 128 ++ [CLite.VInt 0; CLite.VInt flg; CLite.VInt 0]].
+Definition C11_tr_run (ra p flg : Z) : option (CLite.val * option CLite.val) :=
+  match CLite.callf GenCFuncs.cprog 40 6 GenCFuncs.F_ratom_match [CLite.VPtr 2 0; CLite.VPtr 3 0] (C11_tr_amem ra p flg) with
+  | CLite.Ok (v, m) => Some (v, nth_error (nth 3 m []) 0)
+  | CLite.Err _ => None
+  end.
+Example C11_tr_ratom_nonvacuous :
+  TrRegexAtom.ratom_at (C11_tr_amem 0 1 4) 2 1 (AChr C11_tr_lit) /\
+  TrRegexAtom.rstate_at (C11_tr_amem 0 1 4) 3 0 (nth 3 (C11_tr_amem 0 1 4) []) 1 4 /\
+  C11_tr_run 0 1 4 = Some (CLite.VInt 0, Some (CLite.VPtr 0 3)) /\ ReVM.ratom_match 4 C11_tr_line (AChr C11_tr_lit) 1 = ReSyntax.Ok (Some 3) /\
+  C11_tr_run 46 4 0 = Some (CLite.VInt 0, Some (CLite.VPtr 0 5)) /\ ReVM.ratom_match 0 C11_tr_line AAny 4 = ReSyntax.Ok (Some 5) /\
+  C11_tr_run 46 5 0 = Some (CLite.VInt 1, Some (CLite.VPtr 0 5)) /\ ReVM.ratom_match 0 C11_tr_line AAny 5 = ReSyntax.Ok None.
+Proof.
+  split. { eexists. split; [reflexivity|]. cbn. split; [reflexivity|]. split; [reflexivity|repeat constructor]. }
+  split. { repeat split; reflexivity. }
+  repeat split; vm_compute; reflexivity.
+Qed.
